@@ -71,7 +71,7 @@ pub fn exact_aut(keys: &[Vec<u8>]) -> TableAut {
         }
     }
     let n = delta.len();
-    let mut a = TableAut { n, start: 1, cls, delta, matches, can: vec![true; n], always: vec![false; n] };
+    let mut a = TableAut { n, start: 1, cls, delta, matches, can: vec![true; n], always: vec![false; n], eof: vec![] };
     a.exact_hints();
     a
 }
@@ -175,6 +175,16 @@ impl Sess {
                                 Ok(Some(x)) => results.push(Some(x)),
                                 Ok(None) => {
                                     results.push(None);
+                                    // a finished operation stays finished
+                                    for _ in 0..2 {
+                                        match guard(|| st.next().map(|(k, ivs): (&[u8], &[IndexedValue])| (k.to_vec(), ivs.iter().map(|iv| (iv.index, iv.value)).collect::<Vec<_>>()))) {
+                                            Ok(x) => results.push(x),
+                                            Err(p) => {
+                                                panicked = Some(p);
+                                                break;
+                                            }
+                                        }
+                                    }
                                     break;
                                 }
                                 Err(p) => {
